@@ -74,6 +74,7 @@ type Ctx struct {
 	Extra       map[string]interface{}
 	Explanation string
 	MinObl      int
+	RuleMin     map[string]int // minimum number of obligations per rule (instances confirmed by reading on the pinned tree)
 	Level       string
 	TrustedBase []string
 	FuncsSeen   map[string]bool
@@ -373,6 +374,23 @@ func (c *Ctx) Finish(known []KnownFinding, evidencePath string) (*Result, error)
 	if c.MinObl > 0 && len(c.Obls) < c.MinObl {
 		c.Ob("coverage", "", "minimum-obligations", token.NoPos).Fail(
 			"only %d obligations were generated; at least %d were confirmed by reading on the pinned tree — a rule lost its subject", len(c.Obls)-1, c.MinObl)
+	}
+	{
+		cnt := map[string]int{}
+		for _, o := range c.Obls {
+			cnt[o.Rule]++
+		}
+		var names []string
+		for r := range c.RuleMin {
+			names = append(names, r)
+		}
+		sort.Strings(names)
+		for _, r := range names {
+			if cnt[r] < c.RuleMin[r] {
+				c.Ob("coverage", "", "rule "+r+" has its subjects", token.NoPos).Fail(
+					"rule %s generated %d obligations; at least %d instances were confirmed by reading on the pinned tree — the rule lost (part of) its subject and would pass vacuously", r, cnt[r], c.RuleMin[r])
+			}
+		}
 	}
 	violDir := filepath.Join(c.Verif, "evidence", "violations")
 	if c.NoEvidence {
